@@ -375,6 +375,35 @@ example :
                         ⟨3, .simple ⟨6, 8, .fwd⟩, .simple ⟨6, 8, .fwd⟩, [], "d"⟩] (some 12)) =
     some [(.interleaved, [0, 1, 2]), (.hybrid, [0, 2]), (.single, [3])] := by decide +kernel
 
+/-- … and the hypotheses of `interleaved_groups_are_classes_ring` hold at that point of the run: the
+    hybrid candidate {2, 0} with its combined core `[10, 12) + [0, 3)`, the unabsorbed protoclusters 1, 3 -/
+example :
+    let p0 : Proto := ⟨0, .simple ⟨0, 3, .fwd⟩, .simple ⟨0, 3, .fwd⟩, [1], "a"⟩
+    let p1 : Proto := ⟨1, .simple ⟨2, 5, .fwd⟩, .simple ⟨2, 5, .fwd⟩, [], "b"⟩
+    let p2 : Proto := ⟨2, .simple ⟨10, 12, .fwd⟩, .simple ⟨10, 12, .fwd⟩, [1], "c"⟩
+    let p3 : Proto := ⟨3, .simple ⟨6, 8, .fwd⟩, .simple ⟨6, 8, .fwd⟩, [], "d"⟩
+    let hyb : Cand := ⟨.hybrid, [p2, p0], .compound [⟨10, 12, .fwd⟩, ⟨0, 3, .fwd⟩]⟩
+    (match withCores (some 12) [hyb] with
+      | .ok cc => cc == [(hyb, .compound [⟨10, 12, .fwd⟩, ⟨0, 3, .fwd⟩])]
+      | .error _ => false) = true ∧
+    (match findInterleaved [p1, p3] [hyb] (some 12) with
+      | .ok r => r == ([[p0, p1, p2]], [p3])
+      | .error _ => false) = true ∧
+    [p1, p3].Nodup ∧ (∀ p, p ∈ [p1, p3] → p.core.PartsNonEmpty) ∧
+    (∀ c, c ∈ [hyb] → c.members ≠ [] ∧ ∀ m, m ∈ c.members → RingIn 12 m.core) := by
+  intro p0 p1 p2 p3 hyb
+  refine ⟨by decide +kernel, by decide +kernel, by decide, ?_, ?_⟩
+  · intro p hp q hq
+    simp only [List.mem_cons, List.mem_nil_iff, or_false] at hp
+    rcases hp with rfl | rfl <;> (simp only [p1, p3, Loc.parts, List.mem_singleton] at hq; subst hq; decide)
+  · intro c hc
+    simp only [List.mem_singleton] at hc
+    subst hc
+    refine ⟨by simp [hyb], ?_⟩
+    intro m hm
+    simp only [hyb, List.mem_cons, List.mem_nil_iff, or_false] at hm
+    rcases hm with rfl | rfl <;> exact RingInStrict.ringIn (Or.inl ⟨_, rfl, by decide, by decide, by decide⟩)
+
 /-- circular record of length 100: the hybrid {0, 1} spans the origin, the unshared protoclusters 2 and 3
     lie inside its combined core on either side of the origin and are picked up by the two scans, 4 is
     not; the hypotheses of `hybrid_groups_exact_ring_partial` and of `no_duplicate_candidates_ring_partial`
